@@ -206,6 +206,12 @@ theorem relInv_mem {s : St} (h : RelInv s) (hs : s.staged = none) {n' : Node}
       rw [hl]
       exact consec_snoc h.consec (by rw [hcm, tip_height])
 
+theorem relInv_advance {s : St} (h : RelInv s) (hs : s.staged = none) (nx : Sec) : RelInv (s.advance nx).2 := by
+  unfold St.advance
+  split
+  · exact h
+  · exact relInv_mem h hs (Or.inl (receiveRevocation_chains s.mem).1) _ rfl
+
 theorem relInv_apiStep {s : St} (h : RelInv s) (o : Op) : RelInv (s.apiStep o).2 := by
   unfold St.apiStep
   split
@@ -253,10 +259,7 @@ theorem relInv_apiStep {s : St} (h : RelInv s) (o : Op) : RelInv (s.apiStep o).2
     case receiveRevocation =>
       simp only
       unfold St.receiveRevocation
-      split
-      · exact h
-      · refine relInv_mem h hs (Or.inl (receiveRevocation_chains s.mem).1) _ ?_
-        split <;> rfl
+      exact relInv_advance h hs _
     case receiveCommit sv =>
       simp only [Node.step]
       exact relInv_mem h hs (receiveCommit_chains s.mem sv).2 _ rfl
@@ -356,6 +359,17 @@ theorem relInv_step {s : St} (h : RelInv s) (ev : Ev) : RelInv (s.step ev) := by
     · rename_i s' hc; exact relInv_crash h hc
     · exact h
   | syncRevoke => exact relInv_syncRevoke h
+  | recvRevMsg a m =>
+    simp only [St.step]
+    split
+    · exact h
+    · rename_i hs
+      unfold St.receiveRevocationMsg
+      split
+      · exact h
+      · split
+        · exact h
+        · exact relInv_advance h hs _
 
 theorem relInv_run {s : St} (h : RelInv s) (evs : List Ev) : RelInv (s.run evs) := by
   unfold St.run
@@ -388,6 +402,36 @@ theorem diskInv_mem {s : St} (h : DiskInv s) {n' : Node} (hl : n'.chainL.tail = 
     rw [hr]; exact h.pend
   · show n'.chainR.pend.length ≤ 1
     rw [hr]; exact h.one
+
+theorem diskInv_advance {s : St} (h : DiskInv s) (nx : Sec) : DiskInv (s.advance nx).2 := by
+  unfold St.advance
+  split
+  · exact h
+  · rename_i c rest hp
+    have hR : s.mem.receiveRevocation.2.chainR = { tail := c, pend := rest } := by
+      unfold Node.receiveRevocation; rw [hp]
+    have hL := (receiveRevocation_chains s.mem).1
+    have hone := h.one
+    rw [hp] at hone
+    have hrest : rest = [] := by
+      cases rest with
+      | nil => rfl
+      | cons a b => simp at hone
+    have hpd := h.pend
+    rw [hp, hrest] at hpd
+    cases hd : s.disk.pend with
+    | none => simp [hd] at hpd
+    | some p =>
+      simp only [hd, Option.map_some, Option.toList_some, List.cons.injEq, and_true] at hpd
+      refine ⟨?_, ?_, ?_, ?_⟩
+      · show s.disk.lc.cm = s.mem.receiveRevocation.2.chainL.tail
+        rw [hL]; exact h.lc
+      · show (match some p with | some p => p.1 | none => s.disk.rc).cm = s.mem.receiveRevocation.2.chainR.tail
+        rw [hR]; exact hpd
+      · show ([] : List Commit) = s.mem.receiveRevocation.2.chainR.pend
+        rw [hR, hrest]
+      · show s.mem.receiveRevocation.2.chainR.pend.length ≤ 1
+        rw [hR, hrest]; simp
 
 theorem diskInv_apiStep {s : St} (h : DiskInv s) (o : Op) : DiskInv (s.apiStep o).2 := by
   unfold St.apiStep
@@ -431,33 +475,7 @@ theorem diskInv_apiStep {s : St} (h : DiskInv s) (o : Op) : DiskInv (s.apiStep o
     case receiveRevocation =>
       simp only
       unfold St.receiveRevocation
-      split
-      · exact h
-      · rename_i c rest hp
-        have hR : s.mem.receiveRevocation.2.chainR = { tail := c, pend := rest } := by
-          unfold Node.receiveRevocation; rw [hp]
-        have hL := (receiveRevocation_chains s.mem).1
-        have hone := h.one
-        rw [hp] at hone
-        have hrest : rest = [] := by
-          cases rest with
-          | nil => rfl
-          | cons a b => simp at hone
-        have hpd := h.pend
-        rw [hp, hrest] at hpd
-        cases hd : s.disk.pend with
-        | none => simp [hd] at hpd
-        | some p =>
-          simp only [hd, Option.map_some, Option.toList_some, List.cons.injEq, and_true] at hpd
-          refine ⟨?_, ?_, ?_, ?_⟩
-          · show s.disk.lc.cm = s.mem.receiveRevocation.2.chainL.tail
-            rw [hL]; exact h.lc
-          · show (match some p with | some p => p.1 | none => s.disk.rc).cm = s.mem.receiveRevocation.2.chainR.tail
-            rw [hR]; exact hpd
-          · show ([] : List Commit) = s.mem.receiveRevocation.2.chainR.pend
-            rw [hR, hrest]
-          · show s.mem.receiveRevocation.2.chainR.pend.length ≤ 1
-            rw [hR, hrest]; simp
+      exact diskInv_advance h _
     case receiveCommit sv =>
       simp only [Node.step]
       obtain ⟨hR, hL⟩ := receiveCommit_chains s.mem sv
@@ -507,6 +525,16 @@ theorem diskInv_step {s : St} (h : DiskInv s) (ev : Ev) : DiskInv (s.step ev) :=
     · split
       · exact h
       · exact ⟨h.lc, h.rc, h.pend, h.one⟩
+  | recvRevMsg a m =>
+    simp only [St.step]
+    split
+    · exact h
+    · unfold St.receiveRevocationMsg
+      split
+      · exact h
+      · split
+        · exact h
+        · exact diskInv_advance h _
 
 theorem diskInv_run {s : St} (h : DiskInv s) (evs : List Ev) : DiskInv (s.run evs) := by
   unfold St.run
@@ -517,6 +545,156 @@ theorem diskInv_run {s : St} (h : DiskInv s) (evs : List Ev) : DiskInv (s.run ev
 theorem diskInv_init (n : Node) (hp : n.chainR.pend = []) : DiskInv (St.init n) :=
   ⟨rfl, rfl, by simp [St.init, hp], by simp [St.init, hp]⟩
 
+
+/-! ### the peer's commitment points (reject half of C06) -/
+
+/-- what the peer may send: anything, except that a message revealing the TRUE secret of the
+    current remote height also carries the true next point (a peer lying about its own next
+    point only hurts itself). -/
+def Admissible (s : St) : Ev → Prop
+  | .recvRevMsg _ m => m.secret = .ofHeight s.disk.rc.cm.height → m.next = .ofHeight (s.disk.rc.cm.height + 2)
+  | _ => True
+
+structure PointInv (s : St) : Prop where
+  pendH : ∀ c ∈ s.mem.chainR.pend, c.height = s.mem.chainR.tail.height + 1
+  rcur : s.disk.rcur = .ofHeight s.disk.rc.cm.height
+  rnext : s.disk.rnext = .ofHeight (s.disk.rc.cm.height + 1)
+
+theorem pointInv_same {s s' : St} (h : PointInv s) (hc : s'.mem.chainR = s.mem.chainR)
+    (hrc : s'.disk.rc = s.disk.rc) (h1 : s'.disk.rcur = s.disk.rcur) (h2 : s'.disk.rnext = s.disk.rnext) :
+    PointInv s' := by
+  refine ⟨?_, ?_, ?_⟩
+  · rw [hc]; exact h.pendH
+  · rw [h1, hrc]; exact h.rcur
+  · rw [h2, hrc]; exact h.rnext
+
+theorem pointInv_advance {s : St} (hD : DiskInv s) (h : PointInv s) (nx : Sec)
+    (hnx : nx = .ofHeight (s.disk.rc.cm.height + 2)) : PointInv (s.advance nx).2 := by
+  unfold St.advance
+  split
+  · exact h
+  · rename_i c rest hp
+    have hR : s.mem.receiveRevocation.2.chainR = { tail := c, pend := rest } := by
+      unfold Node.receiveRevocation; rw [hp]
+    have hone := hD.one
+    rw [hp] at hone
+    have hrest : rest = [] := by
+      cases rest with
+      | nil => rfl
+      | cons a b => simp at hone
+    have hpd := hD.pend
+    rw [hp, hrest] at hpd
+    have hch : c.height = s.disk.rc.cm.height + 1 := by
+      rw [hD.rc]; exact h.pendH c (by rw [hp]; exact List.mem_cons_self)
+    cases hd : s.disk.pend with
+    | none => simp [hd] at hpd
+    | some p =>
+      simp only [hd, Option.map_some, Option.toList_some, List.cons.injEq, and_true] at hpd
+      refine ⟨?_, ?_, ?_⟩
+      · show ∀ c' ∈ s.mem.receiveRevocation.2.chainR.pend, _
+        rw [hR, hrest]; intro c' hc'; cases hc'
+      · show s.disk.rnext = .ofHeight (match some p with | some p => p.1 | none => s.disk.rc).cm.height
+        show s.disk.rnext = .ofHeight p.1.cm.height
+        rw [hpd, hch]; exact h.rnext
+      · show nx = .ofHeight ((match some p with | some p => p.1 | none => s.disk.rc).cm.height + 1)
+        show nx = .ofHeight (p.1.cm.height + 1)
+        rw [hpd, hch, hnx]
+
+theorem pointInv_apiStep {s : St} (hD : DiskInv s) (h : PointInv s) (o : Op) : PointInv (s.apiStep o).2 := by
+  unfold St.apiStep
+  split
+  · exact h
+  · cases o
+    case sign =>
+      simp only
+      unfold St.sign
+      simp only
+      split
+      · rename_i hok
+        obtain ⟨_, hR⟩ := sign_chains s.mem
+        rcases hR with ⟨_, hp, cm, hcm, hR⟩ | ⟨hne, _⟩
+        · refine ⟨?_, h.rcur, h.rnext⟩
+          show ∀ c ∈ s.mem.sign.2.1.chainR.pend, c.height = s.mem.sign.2.1.chainR.tail.height + 1
+          rw [hR]
+          intro c hc
+          simp only [List.mem_singleton] at hc
+          rw [hc]; exact hcm
+        · exact absurd hok hne
+      · exact h
+    case revoke =>
+      simp only
+      unfold St.revokeWrite
+      split
+      · exact h
+      · rename_i c rest hp
+        have hrevR : s.mem.revoke.2.chainR = s.mem.chainR := by
+          unfold Node.revoke; rw [hp]
+        exact pointInv_same h hrevR rfl rfl rfl
+    case receiveRevocation =>
+      simp only
+      unfold St.receiveRevocation
+      exact pointInv_advance hD h _ rfl
+    case receiveCommit sv =>
+      simp only [Node.step]
+      exact pointInv_same h (receiveCommit_chains s.mem sv).1 rfl rfl rfl
+    all_goals
+      simp only
+      refine pointInv_same h (memStep_chains s.mem _ ?_ ?_ ?_ ?_).2 rfl rfl rfl <;> intros <;> simp
+
+theorem pointInv_step {s : St} (hD : DiskInv s) (h : PointInv s) (ev : Ev) (ha : Admissible s ev) :
+    PointInv (s.step ev) := by
+  cases ev with
+  | op o => exact pointInv_apiStep hD h o
+  | emit =>
+    simp only [St.step, St.emit]
+    split
+    · exact pointInv_same h rfl rfl rfl rfl
+    · exact h
+  | crash =>
+    simp only [St.step]
+    split
+    · rename_i s' hc
+      unfold St.crash at hc
+      split at hc
+      · cases hc
+      · rename_i n hr
+        simp only [Except.ok.injEq] at hc
+        subst hc
+        obtain ⟨_, hR, _⟩ := restore_chains hr
+        refine ⟨?_, h.rcur, h.rnext⟩
+        show ∀ c ∈ n.chainR.pend, c.height = n.chainR.tail.height + 1
+        rw [hR]
+        simp only [restoreChains]
+        intro c hc
+        have hpd := hD.pend
+        cases hd : s.disk.pend with
+        | none => rw [hd] at hc; cases hc
+        | some p =>
+          rw [hd] at hc hpd
+          simp only [List.mem_singleton] at hc
+          simp only [Option.map_some, Option.toList_some] at hpd
+          rw [hc, hD.rc]
+          exact h.pendH p.1.cm (by rw [← hpd]; exact List.mem_cons_self)
+    · exact h
+  | syncRevoke =>
+    simp only [St.step, St.syncRevoke]
+    split
+    · exact h
+    · split
+      · exact h
+      · exact pointInv_same h rfl rfl rfl rfl
+  | recvRevMsg a m =>
+    simp only [St.step]
+    split
+    · exact h
+    · unfold St.receiveRevocationMsg
+      split
+      · exact h
+      · split
+        · exact h
+        · rename_i hne
+          have hsec : m.secret = s.disk.rcur := by simpa using hne
+          exact pointInv_advance hD h _ (ha (by rw [hsec, h.rcur]))
 
 /-! ### consequences of `ChainTrace` -/
 
